@@ -87,6 +87,20 @@ where
         shard.find(hash, |p| key.equivalent(p.key())).cloned()
     }
 
+    /// Remove the piece of the key from the write queue index, if any.
+    pub fn remove<Q>(&self, hash: u64, key: &Q)
+    where
+        Q: Hash + equivalent::Equivalent<K> + ?Sized,
+    {
+        let shard = self.shard(hash);
+        let removed = match shard.write().find_entry(hash, |p| key.equivalent(p.key())) {
+            Ok(o) => Some(o.remove().0),
+            Err(_) => None,
+        };
+        // Drop the piece out of the lock critical section.
+        drop(removed);
+    }
+
     fn shard(&self, hash: u64) -> Arc<RwLock<Shard<K, V, P>>> {
         let index = (hash as usize) % self.inner.shards.len();
         self.inner.shards[index].clone()
